@@ -60,7 +60,7 @@ func (fe *FnExec) doCallWith(fr *frame, st *State, in ssa.Instruction, cc *ssa.C
 		if fr.con != nil {
 			// ghost updates keyed to a builtin (close, append, copy ...)
 			for _, g := range fr.con.Ghosts {
-				if g.After == fr.ords[in] {
+				if ghostSiteMatches(g.After, fr.ords[in]) {
 					ctx := fe.ctxFor(fr, st)
 					fe.assignLvalue(ctx, st, g.LHS, ctx.eval(g.RHS.E))
 				}
@@ -117,6 +117,7 @@ func (fe *FnExec) doCallWith(fr *frame, st *State, in ssa.Instruction, cc *ssa.C
 			}
 		}
 	}
+	fe.optFwdObligation(fr, st, in, site, cc, full)
 	var preSt *State
 	if fr.con != nil && (fr.con.Calls[site] != nil || len(fr.con.Ghosts) > 0) {
 		preSt = st.clone()
@@ -173,7 +174,7 @@ func (fe *FnExec) doCallWith(fr *frame, st *State, in ssa.Instruction, cc *ssa.C
 			}
 		}
 		for _, g := range fr.con.Ghosts {
-			if g.After == site {
+			if ghostSiteMatches(g.After, site) {
 				ctx := fe.ctxFor(fr, st)
 				bind(ctx)
 				nv := ctx.eval(g.RHS.E)
@@ -810,4 +811,17 @@ func (e *Engine) closureFootprint(fn *ssa.Function) map[string]string {
 	e.footprints[fn] = fp
 	e.mu.Unlock()
 	return fp
+}
+
+// ghostSiteMatches: a ghost update is keyed to one call site (`callee#k`) or, with `callee#*`, to every call of that
+// callee in the function — the form to use for counting ("exactly one insert per record"), because it also counts a
+// call that a later change adds.
+func ghostSiteMatches(key, site string) bool {
+	if key == site {
+		return true
+	}
+	if strings.HasSuffix(key, "#*") && site != "" {
+		return strings.HasPrefix(site, strings.TrimSuffix(key, "*"))
+	}
+	return false
 }
